@@ -119,7 +119,13 @@ def case(job):
             p0 = obj.get_parity_sign()
             ys, xs = np.mgrid[0:h_, 0:w_]
             ra0, dec0 = world(obj.wcs, xs.ravel(), ys.ravel())
+            # a second description built on the very same WCS instance must not be affected by the flip
+            twin = ImageDescription(mode=ImageMode.F32, shape=(h_, w_), wcs=obj.wcs)
             obj.flip_parity()
+            rat, dect = world(twin.wcs, xs.ravel(), ys.ravel())
+            okt = np.isfinite(ra0) & np.isfinite(rat)
+            if okt.any() and sep_deg(ra0[okt], dec0[okt], rat[okt], dect[okt]).max() > 1e-9:
+                bad("flip-mutates-shared-wcs", "flipping one object changed another object built on the same WCS instance")
             p1 = obj.get_parity_sign()
             ra1, dec1 = world(obj.wcs, xs.ravel(), (h_ - 1 - ys).ravel())
         except Exception as e:
